@@ -7,7 +7,7 @@
     - errorhandlers/www_authenticate_error_handler.go WithConfig (a rule-level realm
       replaces the prototype's WITHOUT the default for an empty one)
     - handler/proxy/request_context.go Finalize (no upstream; ReverseProxy ErrorHandler)
-    - internal/config/serve.go RespondConfig (koanf names of the overrides)
+    - internal/config/serve.go RespondConfig (koanf names of the overrides; as it is: [fx4 = true])
     - service/handler.go, recovery/handler.go, the three Finalize (as in Model.v) *)
 From HV Require Import Base.Prelude Base.ErrChain C12.Model C12.Inputs.
 Local Open Scope Z_scope.
@@ -15,9 +15,10 @@ Local Open Scope Z_scope.
 (** ** configuration source *)
 
 (** config.NewConfiguration on a file that uses the documented / schema names of the
-    overrides: `precondition_error` is accepted by the schema, but the loader's field is
-    tagged `argument_error` (which the schema rejects), so that override never arrives
-    (finding C12-F4).  [from_file = false]: the respond struct is filled directly. *)
+    overrides.  Before ed62adc the loader's field for `precondition_error` was tagged
+    `argument_error` (a name the schema rejects), so that override never arrived (finding C12-F4,
+    repaired): [fx4 = false] keeps that pinned behaviour, [fx4 = true] (the tree as it is) loads the
+    override.  [from_file = false]: the respond struct is filled directly. *)
 Definition loaded (fx : fixes) (from_file : bool) (c : cfg) : cfg :=
   if from_file && negb (fx4 fx)
   then {| c_verbose := c_verbose c; ov_authn := ov_authn c; ov_authz := ov_authz c; ov_comm := ov_comm c;
